@@ -100,6 +100,21 @@ fn case<const N: usize>(rng: &mut Rng, rep: &mut Report, cfg: &GenCfg) {
     for (src, c) in m.classes.iter_mut() {
         if split(src).is_some() && c.names[t].is_some() && rng.chance(3, 4) { c.names[t] = Some(if rng.chance(1, 5) { rng.pick(&["1", "2", "12"]).to_string() } else { gen::simple_name(rng, cfg) }); }
     }
+    // now and then a long chain of inner classes (depth 8..=40) below one top-level class, simple names in the target namespace
+    if rng.chance(1, 15) {
+        if let Some(top) = m.classes.keys().find(|k| !k.contains('$')).cloned() {
+            let d = rng.usize_in(8, 40);
+            let mut src = top;
+            for i in 1..=d {
+                src = format!("{src}$D{i}");
+                if m.classes.contains_key(&src) { break; }
+                let mut row = vec![None; N]; row[0] = Some(src.clone());
+                for (k, cell) in row.iter_mut().enumerate().skip(1) { if k == t || rng.bool() { *cell = Some(format!("L{i}n{k}")); } }
+                m.classes.insert(src.clone(), maps::Class { names: row, ..Default::default() });
+            }
+            rep.count("deep_chain.sets");
+        }
+    }
     // a source name with a `$` inside a package part is top-level by the split rule
     if rng.chance(1, 12) { let k = format!("o$p/{}", gen::simple_name(rng, cfg)); let mut row = vec![None; N]; row[0] = Some(k.clone()); row[t] = Some("Moved".into()); m.classes.entry(k).or_insert(maps::Class { names: row, ..Default::default() }); rep.count("source.dollar_in_package_part"); }
     rep.eval();
@@ -250,6 +265,7 @@ fn main() {
         .assume("nested = the source name has a last `$` with two non-empty sides that neither ends a package part nor is followed by `/`")
         .assume("open, not judged: nested class whose own name in the namespace contains `/`; unnamed nested class with a missing outer class");
     if ctx.replay.is_none() {
+        meta.oblige("sets with a chain of inner classes 8..40 levels deep", rep.get("deep_chain.sets") >= 50);
         meta.oblige("every non-first namespace index of N = 2, 3, 4 used (6 combinations)", rep.seen_n("target_namespace") == 6);
         for k in ["depth.0", "depth.1", "depth.2", "depth.3", "depth.4", "nested.outer_in_package", "source.dollar_but_top_level", "source.dollar_in_package_part", "extend.ok.rewrote_something", "extend.ok.nested_without_target_name",
             "extend.refused.outer_missing", "extend.refused.outer_unnamed", "contract.rewrote_something", "inverse.checked_on_rewritten_set", "helpers.splittable", "helpers.dollar_but_not_splittable", "helpers.several_dollars", "helpers.recombined"] {
